@@ -215,6 +215,46 @@ func runC07(res *vh.Result) {
 			return out, tbl
 		}
 		preS, preT := bystander()
+		// the attacker's own other sessions are bystanders too, as long as no hostile datagram addresses them (header
+		// SEID) or legitimately ends all sessions of the association (association set-up/update/release, session set
+		// deletion, a report response that may match by CP-SEID)
+		aOthers := map[uint64]bool{}
+		for _, v := range aSess[:len(aSess)-1] {
+			aOthers[v] = true
+		}
+		aSnap := func() map[uint64]*pfcp.VerifSess {
+			out := map[uint64]*pfcp.VerifSess{}
+			for _, s := range env.Srv.VerifSnapshot().Slots {
+				if s != nil && aOthers[s.LocalID] {
+					out[s.LocalID] = s
+				}
+			}
+			return out
+		}
+		preA := aSnap()
+		addressesA := func(b []byte) {
+			if len(b) < 2 {
+				return
+			}
+			switch b[1] {
+			case vh.MAssocReq, vh.MAssocUpdReq, vh.MAssocRelReq, 14, vh.MRepRsp, vh.MEstReq:
+				if b[1] != vh.MEstReq {
+					aOthers = map[uint64]bool{}
+				}
+			}
+			if len(b) >= 12 && b[0]&1 != 0 {
+				var v uint64
+				for _, x := range b[4:12] {
+					v = v<<8 | uint64(x)
+				}
+				delete(aOthers, v)
+			}
+			// a session-level message carrying a Node ID IE (type 60) is a take-over: it renames the association all
+			// sessions of the sender hang on (which of them move is not fixed by the statement)
+			if b[1] != vh.MEstReq && strings.Contains(string(b), "\x00\x3c") {
+				aOthers = map[uint64]bool{}
+			}
+		}
 		isBystander := func(b []byte) bool {
 			if len(b) >= 12 && b[0]&1 != 0 {
 				var v uint64
@@ -248,7 +288,12 @@ func runC07(res *vh.Result) {
 			case 4:
 				return "association-release", vh.BuildMsg(vh.MAssocRelReq, nil, sq, vh.NodeIDv4(A.IP))
 			case 5, 6:
-				ies := append([]*vh.IE{vh.NodeIDv4(A.IP), vh.FSEIDv4(0xa9, A.IP)}, richRules(rng)...)
+				// the CP's SEID is the CP's business: now and then it equals the UP SEID of another session of the sender
+				cp := uint64(0xa9)
+				if rng.Bool() {
+					cp = aSess[0]
+				}
+				ies := append([]*vh.IE{vh.NodeIDv4(A.IP), vh.FSEIDv4(cp, A.IP)}, richRules(rng)...)
 				return "establishment", vh.BuildMsg(vh.MEstReq, &zero, sq, ies...)
 			case 7, 8:
 				return "modification", vh.BuildMsg(vh.MModReq, &target, sq, modIEs(rng)...)
@@ -307,6 +352,7 @@ func runC07(res *vh.Result) {
 			if string(b) != string(valid) {
 				changed = true
 			}
+			addressesA(b)
 			from := []string{"A", "A", "A'", "B"}[rng.Intn(4)]
 			dg := c07Dgram{Template: name, From: from, Muts: muts, Hex: fmt.Sprintf("%x", b)}
 			if len(dg.Hex) > 3000 {
@@ -350,6 +396,14 @@ func runC07(res *vh.Result) {
 		if !reflect.DeepEqual(preT, postT) {
 			res.Violate(ci, "C07:bystander-rules-changed", "data-plane rules of a session no hostile datagram addressed changed",
 				map[string]interface{}{"driver": drvName(realDrv), "sequence": seq})
+		}
+		postA := aSnap()
+		for id := range aOthers {
+			if !reflect.DeepEqual(preA[id], postA[id]) {
+				res.Violate(ci, "C07:unaddressed-session-of-the-sender-changed", fmt.Sprintf("session %#x of the sending peer, which no hostile datagram addressed, changed: before %s after %s",
+					id, vh.J(preA[id]), vh.J(postA[id])), map[string]interface{}{"driver": drvName(realDrv), "sequence": seq})
+			}
+			res.Count("unaddressed_sessions_of_the_sender_checked", 1)
 		}
 		sig := ""
 		if changed {
